@@ -18,7 +18,7 @@ LEVEL = 'proof'
 RULE = ('probe machine: every composition of a menu of 75 (1..5 functors: probes of arity 1..5 in every position, swap/dup/dig/bury left-most, in the middle and right-most, '
         'every parenthesisation of 3- and 4-chains, (f*g)*(h*k), prebuilt composition blocks multiplied with themselves / each other / functors) x every split of the operand list into chunks '
         '(exact, over- and under-supplied), attribute/operand interleavings for arity 1..5; functors: 43 functors of array/functional (indexing, ufunc, reduce, accumulate, outer, matmul, pooling, norms, activations) '
-        'x every curry split and attribute-before/after-operand form vs the direct view, random shapes dim 1..4; extraction: 45 view trees of depth 1..4 with the sub-view in every operand position of unary / binary / ternary nodes '
+        'x every curry split and attribute-before/after-operand form vs the direct view, random shapes dim 1..4; extraction: 46 view trees of depth 1..4 with the sub-view in every operand position of unary / binary / ternary nodes '
         '(operand identity by address, static arity, apply(composition, operands) vs view, compute graphs incl. aliased leaves). non-trivial = more than one functor or more than one chunk; every functor / extraction case')
 EXHAUSTIVE = {'quick': False, 'thorough': False}
 ANCHORS = {'NmVerif.Functional.applyFn': 'functional::apply_function_t<functor_t>::operator() (functor.hpp:368-428), functor_t::operator[] / operator()',
@@ -334,6 +334,7 @@ def _ext_progs():
     add('negative', 1, 'negative(0)', lambda rng: ([rshape(rng)], {}))
     add('matmul', 1, 'matmul(0,1)', g_matmul)
     add('concatenate', 1, 'concatenate(0,1)', g_concat)
+    add('raw_matmul', 1, 'matmul(0,1)', lambda rng: ([[2, 3], [3, 2]], {}))      # bounded C arrays as leaves (fixed in the harness)
     add('where', 2, 'where(bcast(0),bcast(1),bcast(2))', g_where, nonfirst=True, data='cond')
     add('vstack', 2, 'concatenate0(reshape_v(0),reshape_v(1))', g_vstack, nonfirst=True)
     add('neg_add', 2, 'negative(add(0,1))', g_bin, graph=True)
